@@ -10,7 +10,8 @@ Oracle (model independent): a reference map name -> (due, cb, arg) maintained fr
 callback invocation must be the pending one at exactly its due tick with the stored arguments, nothing pending may be
 overdue, check() must equal membership, run_now must call synchronously with the stored arguments; periodic ticks must be
 at t0 + k*interval, none after cancel; timer devices: ticks only while running, exactly tick_interval apart, complete
-exactly when the count reaches the end value; a stopped mode's delays never fire.
+exactly when the count reaches the end value; a stopped mode's delays never fire (a callback the loop runs while
+`mode.active` is False is a failure; the mode's stop with a handler holding the `mode_<n>_stopping` queue for any time).
 """
 import json
 import os
@@ -31,11 +32,16 @@ def _gen_delay_ops():
     return delays_gen.generate()
 
 
-GEN = [_gen_delay_ops]
+def _gen_clock_ops():
+    from translate import clock_gen
+    return clock_gen.generate()
+
+
+GEN = [_gen_delay_ops, _gen_clock_ops]
 MANIFEST = {
-  "text": "Proof on a Lean model of DelayManager (dict of named delays + the set of live loop handles, kept separately) and PeriodicTask, with callbacks as arbitrary programs that re-add/remove/run_now/clear on the same manager (also their own name), start/cancel/replace periodic tasks, RAISE (KeyError or anything else) and BLOCK the loop for any time, and the event loop's choice among due timers left open. The model's commands are tied to the source by translation: mpf/core/delays.py add / remove / add_if_doesnt_exist / check / reset / clear / run_now / _process_delay_callback are regenerated on every run as data for a fixed interpreter (self.delays as interpreter state, clock.schedule_once/unschedule, uuid4 and the callback call as logged effects) and delay_ops_refine_source proves that folding the calls of the TRANSLATED method gives exactly the hand model's step (same dict, same live handles and due times, same handles scheduled/cancelled in order, same callbacks called with the same kwargs) for every name, callback, kwargs and every ms that is an int or a float of any sign (a negative delay is due at once), named or anonymous (uuid4); run_now swallows exactly KeyError, _process_delay_callback passes every exception on after dropping the entry. Proved for every program table and every sequence of calls, time steps and timer firings: a handle never fires before its due tick, fires at exactly that tick when nothing blocked the loop and late by at most the time the loop has been blocked since it was last idle (the loop cannot sleep past anything due; a late delivery shifts no other deadline), with the callback and argument it was scheduled with, at most once, never after it was cancelled (remove, replace under the same name, clear, run_now); every scheduled handle is fired, cancelled or still pending; the dict and the live handles stay coupled (check() truthful, run_now calls the stored callback with the stored argument and cancels the handle); the n-th tick of a periodic task (any interval incl. 0) is never before t0 + n*interval, exactly there when nothing blocked the loop, the next tick is always due at t0 + (count+1)*interval whatever the lateness (no drift, missed ticks delivered back to back, the loop cannot sleep before the count caught up), no tick after cancel. A second Lean model covers the Timer device (running, count, tick interval, system timer, pending timed pause; start/stop/pause/add/subtract/jump/reset/restart/set_ and change_tick_interval, max_value, both directions incl. a start value already past the end value, restart_on_complete, clock runs and pause end): tick only by a running timer not at its end value, clock ticks exactly one interval apart, complete exactly when a count change reaches the end value, a timed pause resumes exactly once. Both models are tied to delays.py/clock.py/timer.py by correspondence runs on real machines every check (fresh, machine-wide and mode-owned DelayManager, real PeriodicTask, real Timer in a mode driven through control events); mode stop and late deliveries to a Timer device (stalled loop) are checked by the implementation oracle only.",
-  "note": "Trusted: Lean kernel + {propext, Quot.sound, Classical.choice}; translate/py2effd.py (Python ast -> DSt/DTop data; rejects a dict access after a callback call, so running a called callback after the method - the model's flattened agenda - is the same as inside) and the interpreter Model/PyEffD.lean (~200 lines, on top of PyEff/PyExec) giving that data Python's meaning; Model/DelayGen.lean applyEff (what clock.schedule_once/unschedule mean for the loop's handles: unschedule of a dead handle is a no-op, a negative timeout is due now); the refinement assumes the invariant Inv (proved for all reachable states), a clock that does not raise and returns the next handle; asyncio's timer heap and mpf.tests TimeTravelLoop made monotonic by the harness (its clock would otherwise run backwards for a timer in the past); time cannot pass a due live handle except while a callback blocks (built into the model's `to` / `block` steps); times on a 1/8 s grid (floats exact; float ms only whole ticks). PeriodicTask and schedule_interval are hand-modelled (clock.py is not translated). Timer operations are issued through control events listed with the value-less actions first.",
-  "technique": "translator (Python ast -> deep-embedded Lean programs with dict state, try/except, effects that may raise) + refinement proof hand model = translated source, re-checked against the current source; Lean 4 invariants over all op sequences/schedules/lateness (induction over the op list, fuel-bounded agenda with exception unwinding for callback programs) on two hand models (delays/periodic tasks, Timer device) + differential correspondence with the real DelayManager/PeriodicTask/Timer + executable oracles (lateness only while blocked, timeline reference for timers, mode stop)",
+  "text": "Proof on a Lean model of DelayManager (dict of named delays + the set of live loop handles, kept separately) and PeriodicTask, with callbacks as arbitrary programs that re-add/remove/run_now/clear on the same manager (also their own name), start/cancel/replace periodic tasks, RAISE (KeyError or anything else) and BLOCK the loop for any time, and the event loop's choice among due timers left open. The model's commands are tied to the source by translation: mpf/core/delays.py add / remove / add_if_doesnt_exist / check / reset / clear / run_now / _process_delay_callback are regenerated on every run as data for a fixed interpreter (self.delays as interpreter state, clock.schedule_once/unschedule, uuid4 and the callback call as logged effects) and delay_ops_refine_source proves that folding the calls of the TRANSLATED method gives exactly the hand model's step (same dict, same live handles and due times, same handles scheduled/cancelled in order, same callbacks called with the same kwargs) for every name, callback, kwargs and every ms that is an int or a float of any sign (a negative delay is due at once), named or anonymous (uuid4); run_now swallows exactly KeyError, _process_delay_callback passes every exception on after dropping the entry. Proved for every program table and every sequence of calls, time steps and timer firings: a handle never fires before its due tick, fires at exactly that tick when nothing blocked the loop and late by at most the time the loop has been blocked since it was last idle (the loop cannot sleep past anything due; a late delivery shifts no other deadline), with the callback and argument it was scheduled with, at most once, never after it was cancelled (remove, replace under the same name, clear, run_now); every scheduled handle is fired, cancelled or still pending; the dict and the live handles stay coupled (check() truthful, run_now calls the stored callback with the stored argument and cancels the handle); the n-th tick of a periodic task (any interval incl. 0) is never before t0 + n*interval, exactly there when nothing blocked the loop, the next tick is always due at t0 + (count+1)*interval whatever the lateness (no drift, missed ticks delivered back to back, the loop cannot sleep before the count caught up), no tick after cancel. The periodic part is tied to the source by translation as well: mpf/core/clock.py PeriodicTask.__init__ / _schedule / _run / cancel / get_next_call_time and ClockBase.schedule_once / schedule_interval / unschedule are regenerated on every run (the task's attributes as interpreter state; loop.time, loop.call_at, loop.call_later, callable, event.cancel and the call of the stored callback as logged effects; a callback may change the task it belongs to) and periodic_refines_source proves that they do what the hand model's pstart / pcancel / pfire do: _last_call moves on by exactly one interval without loop.time() being asked, exactly one next run is requested at the new _last_call + _interval iff the task is not cancelled after its callback, a cancelled handle is silent. Mode.stop() -> delay.clear() and the release of the mode_<name>_stopping queue (_stopped / _finish_stop -> delay.clear()) are mode-level operations of the model (MOp): never_after_mode_stop proves over all histories before the stop, while a handler HOLDS the stopping queue for any time (adds, firings, time, further stops) and after the release that no delay pending at stop() and no delay still pending at the release ever fires, and that the manager is empty after both. A second Lean model covers the Timer device (running, count, tick interval, system timer, pending timed pause; start/stop/pause/add/subtract/jump/reset/restart/set_ and change_tick_interval, max_value, both directions incl. a start value already past the end value, restart_on_complete, clock runs, pause end, STALLS of the loop of any length and the removal of the device when its mode stops): tick only by a running timer not at its end value; the system timer never runs before its due instant t0 + (runs+1)*interval, late by at most the time the loop has been blocked since it was last idle (exactly there without stalls), each run moves the schedule on by one interval whatever its lateness, missed ticks are delivered back to back and the loop cannot go idle before they are (PeriodicTask catch-up); complete exactly when a count change reaches the end value (lateness never changes the count); a timed pause resumes exactly once, late only by the blocked time; after the mode stopped the timer (its own delay manager's pause end, its system timer) is silent for ever. All models are tied to delays.py/clock.py/timer.py/mode.py by correspondence runs on real machines every check (fresh, machine-wide and mode-owned DelayManager incl. held stopping queues, real PeriodicTask, real Timer in a mode driven through control events, stalled loops, mode stop with a pause pending).",
+  "note": "Trusted: Lean kernel + {propext, Quot.sound, Classical.choice}; translate/py2effd.py (Python ast -> DSt/DTop data; rejects a dict access after a callback call, so running a called callback after the method - the model's flattened agenda - is the same as inside) and the interpreter Model/PyEffD.lean (~200 lines, on top of PyEff/PyExec) giving that data Python's meaning; Model/DelayGen.lean applyEff (what clock.schedule_once/unschedule mean for the loop's handles: unschedule of a dead handle is a no-op, a negative timeout is due now); the refinement assumes the invariant Inv (proved for all reachable states), a clock that does not raise and returns the next handle; asyncio's timer heap and mpf.tests TimeTravelLoop made monotonic by the harness (its clock would otherwise run backwards for a timer in the past); time cannot pass a due live handle except while a callback blocks (built into the model's `to` / `block` steps); times on a 1/8 s grid (floats exact; float ms only whole ticks). translate/clock_gen.py (attributes of self as the interpreter's dict, hoisted attribute reads, callable() and the stored callback as effects; constant parameter defaults and `if debug: log` dropped) and Model/ClockGen.lean execCb (a top-level callback call may change the object's attributes: k arbitrary; = the plain interpreter for k = id, proved); periodic_refines_source assumes a loop whose calls do not raise and whose time() is the model's now; the asyncio side of call_at/call_later (a handle runs once, not before `when`) stays modelled, not verified. The order `queue released -> Mode._stopped -> due timers of the same loop iteration -> _finish_stop` is taken from the implementation (the oracle only demands that nothing of the mode fires while mode.active is False). Timer operations are issued through control events listed with the value-less actions first. Ball saves and other devices with their own delay managers are not modelled (C07 drives them).",
+  "technique": "translator (Python ast -> deep-embedded Lean programs with dict state, try/except, effects that may raise) + refinement proof hand model = translated source, re-checked against the current source; Lean 4 invariants over all op sequences/schedules/lateness (induction over the op list, fuel-bounded agenda with exception unwinding for callback programs) on two hand models (delays/periodic tasks/mode stop, Timer device with stalls) + differential correspondence with the real DelayManager/PeriodicTask/Timer/Mode + executable oracles (lateness only while blocked, timeline reference for timers, nothing fires for an inactive mode)",
   "translated": True,
 }
 RULE = ("cases: (a) 6-30 ops over 4 names (+ anonymous uuid names), 4 callbacks with generated programs of 0-3 commands "
@@ -44,9 +50,11 @@ RULE = ("cases: (a) 6-30 ops over 4 names (+ anonymous uuid names), 4 callbacks 
         "{-2,-1,0,0,1,1,2,2,3,4,8} ticks at top level (zero/negative inside programs only towards a lower callback index), 15% passed "
         "as float, advances from {0,1,1,1,2,3,5} ticks, top-level blocks, up to 2 periodic tasks (interval 1-3 ticks; 12% of the "
         "cases an interval-0 task whose callback cancels it) - on a fresh, the machine-wide or a mode-owned DelayManager, the mode "
-        "stream with one mode stop whose mode_<n>_stopping handler issues commands; (b) Timer devices (up/down, end/max value, "
+        "stream with one mode stop whose mode_<n>_stopping handler issues commands and in 60% of the mode cases HOLDS the queue for "
+        "2-6 further ops (calls, advances, firings, blocks) before it is released; (b) Timer devices (up/down, end/max value, "
         "start value inside or already past the end value, restart_on_complete, tick interval 1-3 ticks) driven by 5-25 control "
-        "calls incl. set/change_tick_interval (x2, x3), 25% of the cases with loop stalls of 1-5 ticks. non-trivial = at least one "
+        "calls incl. set/change_tick_interval (x2, x3), 25% of the cases with loop stalls of 1-5 ticks (late ticks and pause ends, compared with the model), 25% with "
+        "the owning mode stopping (also inside a timed pause, also stalled) followed by time only. non-trivial = at least one "
         "timer firing and at least one cancel/replace/run_now or a command issued from inside a callback (timer stream: at least "
         "one tick and one control call after start); distinct = canonical JSON")
 TRUSTED = [
@@ -55,9 +63,11 @@ TRUSTED = [
     "insertion order, uuid4 freshness",
     "translate/py2effd.py + Model/PyEffD.lean (Python subset with one dict attribute, try/except, raising effects) and "
     "Model/DelayGen.lean applyEff; Model/Delay.lean's DelayManager commands are PROVED equal to the translated delays.py "
-    "(delay_ops_refine_source), PeriodicTask (clock.py) is hand-written; both tied by correspondence on every run",
+    "(delay_ops_refine_source); translate/clock_gen.py + Model/ClockGen.lean execCb: the periodic part is PROVED equal to the "
+    "translated clock.py (periodic_refines_source); both also tied by correspondence on every run",
     "Model/TimerDevice.lean is hand-written; tied to mpf/devices/timer.py by correspondence on every run (and an independent "
-    "Python reference trace); Mode.stop() and stalled-loop timer cases: executable oracle on the real code only (no theorem)",
+    "Python reference trace); Mode.stop()/_finish_stop are `clear`s at mode-level operations of the model (the order of "
+    "_stopped, due timers and _finish_stop inside one loop iteration is the implementation's)",
 ]
 ASSUMPTIONS = ["delays and intervals are multiples of 125 ms (any sign; float ms only whole ticks); ms is an int or a float (not NaN)",
                "a callback's exception that reaches the event loop stops the machine (MpfTestCase scaffolding and mpf's own handler): "
@@ -166,8 +176,16 @@ def gen_delay_case(r, kind):
     ops = []
     npers = 0
     stopped = False
+    holding = 0          # > 0: a handler holds the mode_m1_stopping queue for that many more ops
+    hold_mode = kind == "mode" and r.random() < 0.6
     for _ in range(r.randint(6, 30)):
         k = r.random()
+        if holding:
+            holding -= 1
+            if holding == 0:
+                ops.append(["mrelease"])
+                stopped = True
+                continue
         if k < 0.36:
             ops.append(["adv", r.choice([0, 1, 1, 1, 2, 3, 5])])
         elif k < 0.42 and npers < 2 and kind != "mode":
@@ -176,14 +194,24 @@ def gen_delay_case(r, kind):
                 ops.append(["cmd", ["pstart", 0, zero_cb]])
             else:
                 ops.append(["cmd", ["pstart", r.choice([1, 2, 2, 3]), r.randrange(4)]])
-        elif kind == "mode" and not stopped and k < 0.47 and len(ops) > 3:
-            stopped = True
-            ops.append(["mstop", [gen_cmd(r, True, anon) for _ in range(r.choice([0, 1, 1, 2]))]])
+        elif kind == "mode" and not stopped and not holding and k < 0.47 and len(ops) > 3:
+            prog = [gen_cmd(r, True, anon) for _ in range(r.choice([0, 1, 1, 2]))]
+            if hold_mode:
+                # Mode.stop() with a handler that holds the mode_m1_stopping queue: the following ops (calls on the mode's
+                # manager, time, firings) happen while the mode is stopping; `mrelease` lets _stopped/_finish_stop run
+                ops.append(["mhold", prog])
+                holding = r.choice([2, 3, 4, 6])
+            else:
+                stopped = True
+                ops.append(["mstop", prog])
         elif not stopped:
             ops.append(["cmd", gen_cmd(r, False, anon)])
         else:
             ops.append(["adv", r.choice([1, 1, 2, 3])])
-    if kind == "mode" and not stopped:
+    if holding:
+        ops.append(["mrelease"])
+        ops.append(["adv", 3])
+    elif kind == "mode" and not stopped:
         ops.append(["mstop", [gen_cmd(r, True, anon) for _ in range(r.choice([0, 1, 1, 2]))]])
         ops.append(["adv", 3])
     ops.append(["adv", r.choice([1, 2, 9])])
@@ -267,6 +295,9 @@ class DelayRun:
             tag, arg, t = kw.get("tag"), kw.get("arg"), self.tick()
             if how == "F":
                 self.group(["fire", tag])
+                if self.kind == "mode" and not self.mode.active:
+                    # the property's words: the owning mode stopped first (Mode._stopped has run), and the delay fires
+                    self.log.append(("fired-inactive", tag, t))
             self.log.append(("call", how, k, tag, arg, t))
             self.obs("%s %s %s %s %s" % (how, tag, k, arg, t))
             if how == "F":
@@ -462,6 +493,10 @@ class DelayRun:
                         self.group(["to"])
                     elif op[0] == "mstop":
                         self.mstop(op[1])
+                    elif op[0] == "mhold":
+                        self.mhold(op[1])
+                    elif op[0] == "mrelease":
+                        self.mrelease()
                     else:
                         raise InfraError("unknown op %r" % (op,))
                 except InfraError:
@@ -510,6 +545,41 @@ class DelayRun:
         if self.mode.active or self.mode.stopping:
             raise InfraError("mode m1 did not stop")
         self.group(["cmd", ["clear"]])
+        self.log.append(("mode-stopped", self.tick()))
+
+    def mhold(self, prog):
+        """Mode.stop() with a handler that holds the `mode_m1_stopping` queue event (after issuing `prog` on the mode's
+        manager): the mode stays `stopping` until `mrelease`"""
+        m = self.vm.machine
+        self.held = None
+        self.group(["cmd", ["clear"]])
+        self.log.append(("issue", ["clear"], self.tick()))
+        self.log.append(("mode-stopping", self.tick()))
+
+        def stopping(queue=None, **kwargs):
+            queue.wait()
+            self.held = queue
+            for c in prog:
+                self.group(["cmd", c])
+                self.do_cmd(c)
+        self.hold_key = m.events.add_handler("mode_m1_stopping", stopping)
+        self.vm.post("stop_m1")
+        self.vm.run()
+        if self.held is None or not self.mode.stopping or not self.mode.active:
+            raise InfraError("mode m1 is not held in `stopping`")
+
+    def mrelease(self):
+        m = self.vm.machine
+        if getattr(self, "held", None) is None:
+            return              # (shrunk case without the mhold)
+        self.group(["cmd", ["clear"]])
+        self.log.append(("issue", ["clear"], self.tick()))
+        q, self.held = self.held, None
+        q.clear()
+        self.vm.run()
+        m.events.remove_handler_by_key(self.hold_key)
+        if self.mode.active or self.mode.stopping:
+            raise InfraError("mode m1 did not stop after the queue was released")
         self.log.append(("mode-stopped", self.tick()))
 
     def pending_line(self):
@@ -662,8 +732,10 @@ def oracle(run):
                 # tick is not carried into the next, ticks missed during a stall are delivered back to back
                 return "periodic-drift", {"pid": pid, "n": n, "t": t, "expected": exp_t}
             pers[pid][2] = n
-        elif kind in ("adv", "block", "raise", "swallowed", "escaped"):
+        elif kind in ("adv", "block", "raise", "swallowed", "escaped", "mode-stopping"):
             pass
+        elif kind == "fired-inactive":
+            return "mode-delay-after-stop", {"name": ev[1], "t": ev[2], "mode_active": False}
         elif kind == "mode-stopped":
             stopped = True
             pending.clear()
@@ -701,7 +773,7 @@ def check_case(ctx, case, model, shrink=True, shared_vm=None, sample=True):
             ctx.count("cmd_" + e[1][0])
         elif e[0] == "call":
             ctx.count("call_" + e[1])
-        elif e[0] in ("tick", "check", "pstart", "pcancel", "block", "swallowed", "escaped"):
+        elif e[0] in ("tick", "check", "pstart", "pcancel", "block", "swallowed", "escaped", "mode-stopping", "mode-stopped"):
             ctx.count(e[0])
         elif e[0] == "raise":
             ctx.count("raise_%d" % e[1])
@@ -715,6 +787,11 @@ def check_case(ctx, case, model, shrink=True, shared_vm=None, sample=True):
             ctx.count("call_at_end_of_a_block")
     if any("X" in g["obs"] for g in run.groups):
         ctx.count("budget_exhausted")
+    hold = [e[1] for e in run.log if e[0] == "mode-stopping"]
+    rel = [e[1] for e in run.log if e[0] == "mode-stopped"]
+    if hold and rel:
+        ctx.count("fired_while_mode_stopping", sum(1 for e in run.log if e[0] == "call" and e[1] == "F" and hold[0] <= e[5] <= rel[0]))
+        ctx.count("hold_ticks", rel[0] - hold[0])
     bad = oracle(run)
     if bad:
         sig, detail = bad
@@ -813,11 +890,11 @@ def gen_timer_case(r):
             ops.append(["subtract", r.choice([1, 2, 4])])
         elif k < 0.91:
             ops.append(["jump", r.choice([0, 1, 2, 4, 7])])
-        elif k < 0.94:
+        elif k < 0.93:
             ops.append(["reset"])
-        elif k < 0.97:
+        elif k < 0.95:
             ops.append(["restart"])
-        elif k < 0.985:
+        elif k < 0.975:
             ops.append(["set_tick_interval", r.choice([1, 2, 3])])
         else:
             ops.append(["change_tick_interval", r.choice([2, 2, 3])])
@@ -826,6 +903,11 @@ def gen_timer_case(r):
             # (followed by an advance: all late deliveries happen there, not in the middle of the next control event)
             ops.append(["stall", r.choice([1, 1, 2, 3, 5])])
             ops.append(["adv", r.choice([1, 1, 2])])
+    if r.random() < 0.25:
+        # the owning mode stops (device_removed_from_mode = stop(), control events unregistered): from then on only time
+        # passes (and the loop stalls); a pause end or system timer still in the loop must stay silent
+        k = r.randrange(len(ops) // 2, len(ops) + 1)
+        ops = ops[:k] + [["mode_stop"]] + [o for o in ops[k:] if o[0] in ("adv", "stall")] + [["adv", r.choice([1, 3, 6])]]
     ops.append(["adv", r.choice([2, 5, 9])])
     case = {"kind": "timer", "cfg": cfg, "ops": ops}
     if os.environ.get("VERIF_C13_CE_SHUFFLE") == "1":
@@ -933,6 +1015,7 @@ class TimerRun:
                 try:
                     if op[0] == "stall":
                         self.log.append(("stall", self.tick(), self.tick() + op[1]))
+                        self.cause(op)          # the model's `stall d` (group time = the instant the stall begins)
                         vm.tc.loop.advance_time(op[1] * TICK)
                         continue
                     if op[0] == "adv":
@@ -943,6 +1026,13 @@ class TimerRun:
                         finally:
                             self.in_adv = False
                         self.cause("to")
+                    elif op[0] == "mode_stop":
+                        self.log.append(("op", op, self.tick()))
+                        self.cause(op)
+                        vm.post("stop_m1")
+                        vm.run()
+                        if m.modes["m1"].active:
+                            raise InfraError("timer mode did not stop")
                     else:
                         self.log.append(("op", op, self.tick()))
                         self.cause(op)
@@ -1009,6 +1099,7 @@ def timer_clock_oracle(run):
     end = c["end"] if (c["end"] is not None or up) else 0
     mx = c["max"]
     st = {"running": False, "ticks": c["start"], "arm": None, "iv": c["iv"], "resume": None}
+    run.late = [0, 0]
     exp = []         # expected (event, ticks, t) in order
 
     def done():
@@ -1079,6 +1170,8 @@ def timer_clock_oracle(run):
                 return "tie"
             ts, what = min(nxt)
             t = max(ts, t_from)
+            if ts < t_from and (what == 0 or st["running"]):
+                run.late[what] += 1       # a pause end / a clock tick of a running timer delivered late (after a stall)
             if what == 0:
                 st["resume"] = None
                 start(t)
@@ -1095,13 +1188,18 @@ def timer_clock_oracle(run):
     got = []
     tie = False
     stalled = False
+    removed = False
     for ev in run.log:
         if ev[0] == "op" and ev[1][0] != "mode_start":
             o, t = ev[1], ev[2]
+            if removed:
+                continue        # the mode has stopped: the timer's control events are unregistered
+            if o[0] == "mode_stop":
+                removed = True
             if o[0] == "start":
                 start(t)
-            elif o[0] == "stop":
-                stop(t)
+            elif o[0] in ("stop", "mode_stop"):
+                stop(t)         # device_removed_from_mode() is stop()
             elif o[0] == "pause":
                 st["running"] = False
                 st["arm"] = None
@@ -1171,7 +1269,7 @@ def classify_timer(exp, got, extra):
 
 TIMER_MODEL_OP = {"start": "start", "stop": "stop", "reset": "reset", "restart": "restart", "pause": "pause %d",
                   "add": "add %d", "subtract": "sub %d", "jump": "jump %d", "set_tick_interval": "setiv %d",
-                  "change_tick_interval": "chiv %d"}
+                  "change_tick_interval": "chiv %d", "stall": "stall %d", "mode_stop": "removed"}
 
 
 def timer_model_lines(run):
@@ -1200,6 +1298,8 @@ def timer_model_lines(run):
         else:
             f = TIMER_MODEL_OP[h[0]]
             out.append(("tm " + (f % h[1] if "%" in f else f), exp))
+            if h[0] == "stall":
+                now += h[1]         # the clock moved while the loop did not run
         if g["state"] is not None:
             out.append(("tm state", g["state"]))
     return out
@@ -1234,9 +1334,12 @@ def check_timer_case(ctx, case, shrink=True, model=None):
             else:
                 small = case
         ctx.fail(sig, small, detail)
+    if getattr(run, "late", None):
+        ctx.count("timer_late_pause_ends", run.late[0])
+        ctx.count("timer_late_clock_ticks", run.late[1])
     if any(o[0] == "stall" for o in case["ops"]):
-        ctx.count("timer_cases_with_stall")          # late deliveries: reference trace only (Model/TimerDevice.lean has none)
-    elif model is not None and not run.crash:
+        ctx.count("timer_cases_with_stall")          # late deliveries: `stall d` in Model/TimerDevice.lean
+    if model is not None and not run.crash:
         lines = timer_model_lines(run)
         got = [model.ask(l) for l, _ in lines]
         ctx.compare(dict(case, what="timer device trace", sent=[l for l, _ in lines]), [e for _, e in lines], got)
@@ -1277,6 +1380,14 @@ CORPUS = [
     {"kind": "fresh", "progs": {"0": [], "1": [["pcancel", 0], ["add", -3, 2, 0, 4]], "2": [["prestart", 1, 1, 0]], "3": []},
      "ops": [["cmd", ["pstart", 0, 1]], ["cmd", ["add", -2, 0, 0, 1]], ["cmd", ["add", 0, 1, 0, 2, 1]], ["adv", 0],
              ["cmd", ["pstart", 2, 2]], ["adv", 5], ["cmd", ["add", -1, 0, 3, 3]], ["cmd", ["check", 0]], ["adv", 1]]},
+    # held mode_m1_stopping queue: delay 0 is pending at stop() (never fires), delay 1 added by the stopping handler fires inside
+    # the hold, delay 2 added during the hold is killed by the release; a delay that is due at the very instant of the release
+    # while the loop was blocked (found by this check: it fired after Mode._stopped, before _finish_stop; fixed e964f0a)
+    {"kind": "mode", "progs": {"0": [], "1": [], "2": [], "3": []},
+     "ops": [["cmd", ["add", 2, 0, 1, 1]], ["adv", 1], ["mhold", [["add", 1, 1, 2, 5]]], ["cmd", ["add", 4, 2, 3, 6]], ["adv", 2],
+             ["cmd", ["check", 2]], ["mrelease"], ["adv", 6]]},
+    {"kind": "mode", "progs": {"0": [], "1": [["check", 1]], "2": [], "3": []},
+     "ops": [["mhold", []], ["cmd", ["reset", 1, 1, 1, -76]], ["cmd", ["block", 1]], ["mrelease"], ["adv", 2]]},
     # D12: a delay added on the mode's manager while the mode is stopping
     {"kind": "mode", "progs": {"0": [], "1": [], "2": [], "3": []},
      "ops": [["cmd", ["add", 4, 0, 1, 1]], ["adv", 1], ["mstop", [["add", 2, 1, 2, 5]]], ["adv", 5]]},
